@@ -338,6 +338,40 @@ func consoleProgram(cfg *config, id int) {
 		}
 		pcs = append(pcs, pcase{dbs, stream})
 	}
+	// several statements entered with ONE Enter, some of which the engine refuses (a database that exists, an
+	// unknown database, a syntax error): a refused statement is reported and the ones after it on the line
+	// are executed all the same
+	for i := 0; i < 4*cfg.scale; i++ {
+		rr := r.Fork()
+		var dbs []string
+		var line []byte
+		k := rr.Range(2, 5)
+		for j := 0; j < k; j++ {
+			name := fmt.Sprintf("q%d_%d", i, j)
+			dbs = append(dbs, name)
+			line = append(line, fmt.Sprintf("CREATE DATABASE %s; ", name)...)
+			if j < k-1 || rr.Bool() {
+				switch rr.Intn(4) {
+				case 0:
+					line = append(line, fmt.Sprintf("CREATE DATABASE %s; ", name)...) // exists
+				case 1:
+					line = append(line, "USE nosuchdb; "...)
+				case 2:
+					line = append(line, "SELEC 1; "...)
+				}
+			}
+		}
+		line = append(line, '\r')
+		var stream []byte
+		if i%2 == 1 {
+			stream = append(stream, "\x1b[200~"...)
+			stream = append(stream, line...)
+			stream = append(stream, "\x1b[201~"...)
+		} else {
+			stream = line
+		}
+		pcs = append(pcs, pcase{dbs, stream})
+	}
 	cwd, _ := os.Getwd()
 	inPath, outPath := filepath.Join(cwd, "console-main.in"), filepath.Join(cwd, "console-main.out")
 	fin, _ := os.Create(inPath)
